@@ -122,6 +122,44 @@ func classify(meta *gallina.Meta, o op, prev []oalert, ob obsT, hold, kff int64)
 		if hold < o.Grace {
 			meta.Hit("restore-skip-hold<grace")
 		}
+		// boundary classes of timeRemainingPending for the visible last samples of present instances
+		if hold >= o.Grace {
+			lo, hi := (o.TS-o.Tol)/1e6, o.TS/1e6
+			for _, sr := range o.Store {
+				if find(prev, sr.Key) == nil {
+					continue
+				}
+				var last *ssample
+				for i := range sr.Samples {
+					if sr.Samples[i].T >= lo && sr.Samples[i].T <= hi {
+						last = &sr.Samples[i]
+					}
+				}
+				if last == nil {
+					meta.Hit("restore-no-visible-sample")
+					if len(sr.Samples) > 0 && sr.Samples[len(sr.Samples)-1].T == lo-1 {
+						meta.Hit("restore-tolerance-edge-out")
+					}
+					continue
+				}
+				if last.T == lo {
+					meta.Hit("restore-tolerance-edge-in")
+				}
+				if last.Stale {
+					continue
+				}
+				switch rem := hold - (last.T/1000-last.V)*sec; {
+				case rem == 0:
+					meta.Hit("restore-remaining=0")
+				case rem == sec:
+					meta.Hit("restore-remaining=+1s")
+				case rem == -sec:
+					meta.Hit("restore-remaining=-1s")
+				case rem == o.Grace:
+					meta.Hit("restore-remaining=grace")
+				}
+			}
+		}
 		for _, x := range ob.m {
 			p := find(prev, x.key)
 			if p != nil && !p.ActiveAt.Equal(x.a.ActiveAt) {
